@@ -356,6 +356,164 @@ func splitDetails(r *hlib.Rand) []byte {
 	return out
 }
 
+// ---- repeated singular fields (seeded change C08-5): every singular field of NebulaHandshakeDetails is
+// written 1..3 times -- inside one Details occurrence or spread over 2..3 occurrences of the outer Details
+// field (which merge field-wise) -- with the earlier Cert occurrence empty / non-empty / longer / shorter /
+// of the same length as the later one, earlier varints zero / non-zero / boundary, unknown fields (and,
+// between Details occurrences, Hmac / unknown outer fields) interleaved.  Almost every such message is
+// accepted by both decoders, so the last-wins rule is what is being compared.
+
+func varintMostlyMinimal(r *hlib.Rand, v uint64) []byte {
+	if r.Chance(1, 12) {
+		b := protowire.AppendVarint(nil, v)
+		if len(b) < 10 { // one redundant continuation byte: still a valid varint
+			b[len(b)-1] |= 0x80
+			b = append(b, 0x00)
+		}
+		return b
+	}
+	return protowire.AppendVarint(nil, v)
+}
+
+func rec(r *hlib.Rand, num uint64, typ int, val []byte) []byte {
+	return append(varintMostlyMinimal(r, num<<3|uint64(typ)), val...)
+}
+
+func bytesVal(r *hlib.Rand, v []byte) []byte {
+	return append(varintMostlyMinimal(r, uint64(len(v))), v...)
+}
+
+// a well-formed field the schema does not know (or knows as Cookie = 4, which payload.go skips)
+func unknownField(r *hlib.Rand) []byte {
+	num := uint64(hlib.Pick(r, 4, 4, 6, 7, 9, 15, 16, 17, 100, 1<<29-1))
+	switch r.Intn(5) {
+	case 0:
+		return rec(r, num, 1, r.Bytes(8))
+	case 1:
+		return rec(r, num, 5, r.Bytes(4))
+	case 2:
+		return rec(r, num, 2, bytesVal(r, r.Bytes(hlib.Pick(r, 0, 1, 3, 20))))
+	case 3: // a closed group holding one varint field
+		g := rec(r, num, 3, rec(r, uint64(r.Range(1, 9)), 0, varintMostlyMinimal(r, boundary64(r))))
+		return append(g, varintMostlyMinimal(r, num<<3|4)...)
+	}
+	return rec(r, num, 0, varintMostlyMinimal(r, boundary64(r)))
+}
+
+// certSeries: k Cert values with a chosen relation between consecutive occurrences
+func certSeries(r *hlib.Rand, k int) [][]byte {
+	out := make([][]byte, k)
+	base := r.Range(1, 40)
+	for i := range out {
+		var n int
+		switch r.Intn(6) {
+		case 0:
+			n = 0 // empty occurrence (earlier: later must fill; later: must wipe the earlier one)
+		case 1:
+			n = base
+		case 2:
+			n = base + r.Range(1, 130) // longer
+		case 3:
+			n = r.Intn(base) // shorter (possibly empty)
+		case 4:
+			n = hlib.Pick(r, 1, 127, 128, 129, 300)
+		default:
+			n = r.Range(1, 24)
+		}
+		out[i] = r.Bytes(n)
+		if i > 0 && len(out[i-1]) > 0 && len(out[i]) > 0 && r.Chance(1, 6) {
+			// later occurrence is a prefix / suffix / repetition of the earlier one
+			prev := out[i-1]
+			switch r.Intn(3) {
+			case 0:
+				out[i] = append([]byte(nil), prev[:r.Range(1, len(prev))]...)
+			case 1:
+				out[i] = append([]byte(nil), prev[r.Intn(len(prev)):]...)
+			default:
+				out[i] = append([]byte(nil), prev...)
+			}
+		}
+	}
+	return out
+}
+
+func repeatedFields(r *hlib.Rand) []byte {
+	type occ struct {
+		field int // index into knownNums
+		b     []byte
+	}
+	var occs []occ
+	for fi, num := range knownNums {
+		k := hlib.Pick(r, 1, 2, 2, 2, 3, 3, 0)
+		if num == 1 {
+			k = hlib.Pick(r, 2, 2, 2, 3, 3, 1)
+			for _, c := range certSeries(r, k) {
+				occs = append(occs, occ{fi, rec(r, 1, 2, bytesVal(r, c))})
+			}
+			continue
+		}
+		for j := 0; j < k; j++ {
+			var v uint64
+			switch {
+			case r.Chance(1, 5):
+				v = 0
+			case num == 5:
+				v = boundary64(r)
+			default:
+				v = uint64(boundary32(r))
+			}
+			occs = append(occs, occ{fi, rec(r, uint64(num), 0, varintMostlyMinimal(r, v))})
+		}
+	}
+	// a random interleaving of the occurrences (the order within one field's series is irrelevant to the
+	// test: whichever lands last must win)
+	for i := len(occs) - 1; i > 0; i-- {
+		j := r.Intn(i + 1)
+		occs[i], occs[j] = occs[j], occs[i]
+	}
+	// cut into 1..3 Details occurrences
+	parts := hlib.Pick(r, 1, 1, 2, 2, 2, 3, 3)
+	cuts := map[int]bool{}
+	for i := 1; i < parts && len(occs) > 1; i++ {
+		cuts[r.Range(1, len(occs)-1)] = true
+	}
+	var out, d []byte
+	flush := func() {
+		out = append(out, rec(r, 1, 2, bytesVal(r, d))...)
+		d = nil
+		if r.Chance(1, 6) {
+			out = append(out, rec(r, 2, 2, bytesVal(r, r.Bytes(r.Intn(33))))...) // Hmac
+		}
+		if r.Chance(1, 8) {
+			out = append(out, unknownField(r)...) // unknown field of the outer message (3.. : never 1 / 2)
+		}
+		if r.Chance(1, 10) {
+			out = append(out, 0x0a, 0x00) // an empty Details occurrence
+		}
+	}
+	for i, o := range occs {
+		if cuts[i] {
+			flush()
+		}
+		if r.Chance(1, 5) {
+			d = append(d, unknownField(r)...)
+		}
+		d = append(d, o.b...)
+	}
+	if r.Chance(1, 5) {
+		d = append(d, unknownField(r)...)
+	}
+	flush()
+	return out
+}
+
+// the three witnesses of seeded change C08-5 (also corpus/payload/c08-5-repeated-cert.ops)
+var c085Witnesses = []string{
+	"0a190a0a6465636f792d63657274102a0a097265616c2d63657274", // Cert, InitiatorIndex, Cert in one Details
+	"0a090a057374616c650a00",                                 // Cert then empty Cert
+	"0a090a05666972737410050a080a067365636f6e64",             // a Cert in each of two Details occurrences
+}
+
 func validPayload(r *hlib.Rand) handshake.Payload {
 	return handshake.Payload{Cert: r.Bytes(certLen(r) % 400), InitiatorIndex: boundary32(r), ResponderIndex: boundary32(r),
 		Time: boundary64(r), CertVersion: hlib.Pick(r, 0, 1, 2, boundary32(r))}
@@ -407,6 +565,9 @@ func gen(r *hlib.Rand, n int, tier, profile string, emit func(string, ...any)) {
 	emit("unm %s", hlib.Hex(append([]byte{0x0b}, nestedGroups(10002, true)...)))
 	emit("mar - 0 0 0 0")
 	emit("unm -")
+	for _, w := range c085Witnesses {
+		emit("unm %s", w)
+	}
 	for k := 0; k <= 10; k++ {
 		for _, d := range []int{-1, 0, 1} {
 			if k == 0 && d < 0 {
@@ -438,7 +599,13 @@ func gen(r *hlib.Rand, n int, tier, profile string, emit func(string, ...any)) {
 		}
 	}
 	for i := 0; i < n; i++ {
-		switch r.Intn(16) {
+		switch r.Intn(18) {
+		case 16, 17:
+			b := repeatedFields(r)
+			if r.Chance(1, 12) {
+				b = mutate(r, b)
+			}
+			emit("unm %s", hlib.Hex(b))
 		case 0, 1, 2:
 			p := validPayload(r)
 			if r.Chance(1, 8) {
